@@ -120,7 +120,7 @@ def _group_md_text(t):
 def _cmp_loaded(w, loaded, ref, meta, oracle, what, subset=False):
     msg = coherence(loaded, w.absent_id())
     if msg:
-        w.fail('coherence', '%s: %s' % (what, msg))
+        w.fail(oracle + '.incoherent', '%s: %s' % (what, msg))
     s = Snap(loaded)
     exp = ref.copy()
     exp.type = ref.type
